@@ -185,7 +185,7 @@ func C04(sp *spec.Spec, ex *rt.Exchange) *Verdict {
 		v.Inconclusive = "no payload"
 		return v
 	}
-	if ex.Panic != "" {
+	if ex.Panic != "" && ex.StubIn == nil {
 		v.add(mkKey("panic", "panic:"+panicSite(ex.Panic), "", Explain(sp, m, c.Sent)), "panic: %s", firstLine(ex.Panic))
 		return v
 	}
@@ -348,15 +348,18 @@ func siteTags(sp *spec.Spec, m *spec.Method, decl *spec.Attr, site string, reque
 
 // explains says which finding classes a known trigger class can account for.
 var explains = map[string]map[string]bool{
-	"absent-collection-minlen": {"rejected:invalid_length": true, "misnamed:invalid_length": true, "refused:invalid_length": true},
-	"both-exclusive-bounds":    {"leaked": true, "accepted": true},
-	"required-cookie":          {"leaked": true},
-	"path-value-with-slash":    {"rejected:fault": true, "misnamed:fault": true},
-	"body-attr-absent":         {"panic": true, "rejected:invalid_format": true, "rejected:invalid_length": true, "rejected:invalid_pattern": true, "rejected:invalid_enum_value": true, "rejected:invalid_range": true, "rejected:missing_field": true, "misnamed:invalid_format": true, "misnamed:missing_field": true, "misnamed:invalid_length": true, "misnamed:invalid_pattern": true, "misnamed:invalid_enum_value": true, "misnamed:invalid_range": true},
-	"header-array-multi":       {"refused:invalid_field_type": true, "refused:invalid_length": true, "refused:invalid_range": true, "refused:invalid_enum_value": true, "refused:invalid_pattern": true, "refused:invalid_format": true, "mismatch:header-array": true},
+	"absent-collection-minlen":      {"rejected:invalid_length": true, "misnamed:invalid_length": true, "refused:invalid_length": true},
+	"both-exclusive-bounds":         {"leaked": true, "accepted": true},
+	"required-cookie":               {"leaked": true},
+	"path-value-with-slash":         {"rejected:fault": true, "misnamed:fault": true},
+	"body-attr-absent":              {"panic": true, "rejected:*": true, "misnamed:*": true, "mismatch": true},
+	"required-object-outside-view":  {"panic": true},
+	"tagged-response-header-absent": {"panic": true},
+	"recursive-result-type":         {"view:nested": true},
+	"header-array-multi":            {"refused:*": true, "mismatch:header-array": true},
 }
 
-var tagOrder = []string{"both-exclusive-bounds", "required-cookie", "body-attr-absent", "path-value-with-slash", "header-array-multi", "absent-collection-minlen"}
+var tagOrder = []string{"recursive-result-type", "tagged-response-header-absent", "required-object-outside-view", "both-exclusive-bounds", "required-cookie", "body-attr-absent", "path-value-with-slash", "header-array-multi", "absent-collection-minlen"}
 
 // mkKey builds a violation key. class is the coarse finding class ("rejected:<name>", "leaked",
 // "misnamed:<name>", "refused:<name>", "accepted", "panic", "mismatch:..."). When the input belongs
@@ -367,8 +370,15 @@ func mkKey(class, typ, granular string, tags []string) string {
 	for _, t := range tags {
 		has[t] = true
 	}
+	wild := class
+	if i := strings.IndexByte(class, ':'); i > 0 {
+		wild = class[:i] + ":*"
+	}
 	for _, t := range tagOrder {
-		if has[t] && explains[t][class] {
+		if has[t] && (explains[t][class] || explains[t][wild]) {
+			if explains[t][wild] && !explains[t][class] {
+				return "trigger:" + t + ":" + strings.TrimSuffix(wild, ":*")
+			}
 			return "trigger:" + t + ":" + class
 		}
 	}
